@@ -85,6 +85,8 @@ class C07(Prop):
                     lines.append("clearcache")
                 else:
                     lines.append("resetcb")
+            if rng.random() < 0.02:     # malformed stream: both sides must answer bad-op and carry on
+                lines.insert(rng.randrange(1, len(lines) + 1), rng.choice(["run 1 EXECUTE", "bogus", "cfg and 1", "adv", "run"]))
             yield {"lines": lines, "note": "random"}
 
     def _cap_case(self, k):
